@@ -55,6 +55,12 @@ unsigned vf_tree_move_assign_child(int v, int c1, int w, int d1){ unsigned bad =
   BAD(0, links_ok(a)); BAD(1, is_root(a)); BAD(2, a.front().get_unsafe().get().value() == w && a.front().get_unsafe().get().front().get_unsafe().get().value() == d1); BAD(3, is_root(b)); return bad; }
 unsigned vf_tree_assign_root(int v, int c1, int w, int d1, bool move){ unsigned bad = 0; tree a{mk1(v, c1)}; tree b{mk1(w, d1)}; if (move) a = std::move(b); else a = b;
   BAD(0, links_ok(a)); BAD(1, is_root(a)); BAD(2, a.value() == w && a.front().get_unsafe().get().value() == d1); BAD(3, links_ok(b) && is_root(b)); return bad; }
+unsigned vf_tree_move_assign_from_child(int v, int c1, int g){ unsigned bad = 0; tree t{mk3(v, c1, g)}; t = std::move(t.front().get_unsafe().get());   // the source is a child of the target
+  BAD(0, links_ok(t)); BAD(1, is_root(t)); BAD(2, t.value() == c1 && t.size() == 1 && t.front().get_unsafe().get().value() == g && t.front().get_unsafe().get().empty()); return bad; }
+unsigned vf_tree_copy_assign_from_child(int v, int c1, int g){ unsigned bad = 0; tree t{mk3(v, c1, g)}; t = t.front().get_unsafe().get();
+  BAD(0, links_ok(t)); BAD(1, is_root(t)); BAD(2, t.value() == c1 && t.size() == 1 && t.front().get_unsafe().get().value() == g && t.front().get_unsafe().get().empty()); return bad; }
+unsigned vf_tree_copy_assign_grow(int v, int w, int d1){ unsigned bad = 0; tree a{v}; tree const b{mk1(w, d1)}; a = b;   // the source has more children than the target (a leaf)
+  BAD(0, links_ok(a)); BAD(1, is_root(a)); BAD(2, a.value() == w && a.size() == 1 && a.front().get_unsafe().get().value() == d1); BAD(3, links_ok(b) && is_root(b) && b.size() == 1); return bad; }
 unsigned vf_tree_child_position(int v, int c){ unsigned bad = 0; tree t{mk2(v, c, c)};   // two siblings with EQUAL contents
   auto const p0 = ft::child_position(t, t.front().get_unsafe().get()); auto const p1 = ft::child_position(t, t.back().get_unsafe().get()); tree other{c}; auto const pn = ft::child_position(t, other);
   BAD(0, p0.has_value() && p0.get_unsafe() == t.begin()); BAD(1, p1.has_value() && p1.get_unsafe() == std::next(t.begin())); BAD(2, !pn.has_value()); return bad; }
